@@ -1,10 +1,10 @@
 package main
 
 import (
-	"go/ast"
-	"go/types"
 	"flag"
 	"fmt"
+	"go/ast"
+	"go/types"
 	"os"
 	"runtime/debug"
 	"sort"
